@@ -243,6 +243,7 @@ extern uint64_t g_ntok, g_osize;
 extern uint64_t w_e_bits, w_e_word;
 extern uint32_t w_e_cnt, w_e_len;
 extern uint8_t *w_e_out;
+extern struct deflate_icf *w_e_first; /* next_in at entry (snapshot by assignment in the E_ hook) */
 #ifndef EN_MAXTOK
 #define EN_MAXTOK 4
 #endif
@@ -275,7 +276,7 @@ extern uint8_t *w_e_out;
         })                                                                                         \
         __CPROVER_requires(EN_TOK_OK(0) && EN_TOK_OK(1) && EN_TOK_OK(2) && EN_TOK_OK(3))           \
         __CPROVER_assigns(bb->m_bits, bb->m_bit_count, bb->m_out_buf, __CPROVER_object_whole(bb->m_out_start), \
-                          w_e_bits, w_e_word, w_e_cnt, w_e_len, w_e_out)                           \
+                          w_e_bits, w_e_word, w_e_cnt, w_e_len, w_e_out, w_e_first)                \
         __CPROVER_ensures(__CPROVER_same_object(__CPROVER_return_value, next_in) &&                \
                           EN_OFF(next_in) <= EN_OFF(__CPROVER_return_value) &&                     \
                           EN_OFF(__CPROVER_return_value) <= EN_OFF(end_in) &&                      \
@@ -285,12 +286,24 @@ extern uint8_t *w_e_out;
         __CPROVER_ensures(__CPROVER_same_object(bb->m_out_buf, bb->m_out_start) &&                 \
                           EN_OFF(bb->m_out_buf) >= EN_OFF(__CPROVER_old(bb->m_out_buf)) &&         \
                           EN_OFF(bb->m_out_buf) <= EN_OS)                                        \
+        /* the last token consumed left exactly its window behind (w_e_*: snapshot of its iteration) */ \
+        __CPROVER_ensures(__CPROVER_return_value != next_in ==>                                    \
+                          (EN_OFF(bb->m_out_buf) == EN_OFF(w_e_out) + EN_K &&                      \
+                           bb->m_bit_count == ((w_e_cnt + w_e_len) & 7) EN_BITS_INV))              \
         /* nothing consumed ==> nothing produced */                                                \
         __CPROVER_ensures(__CPROVER_return_value == next_in ==>                                    \
                           (bb->m_out_buf == __CPROVER_old(bb->m_out_buf) &&                        \
                            bb->m_bits == __CPROVER_old(bb->m_bits) &&                              \
                            bb->m_bit_count == __CPROVER_old(bb->m_bit_count)))
 #define EN_K ((w_e_cnt + w_e_len) >> 3)
+/* -DEN_NO_BITS drops the conjunct "pending bits == expected window >> whole bytes" (quick structural variant:
+ * positions, bit count, memory safety, termination; the equivalence of the two 64-bit shift/or chains is what
+ * costs the solver minutes) */
+#ifdef EN_NO_BITS
+#define EN_BITS_INV
+#else
+#define EN_BITS_INV &&bb->m_bits == (w_e_word >> (8 * EN_K))
+#endif
 /* -DEN_BYTES adds: the eight bytes at the old write position hold the expected window (thorough tier) */
 #ifdef EN_BYTES
 #define EN_BYTES_INV                                                                               \
@@ -319,12 +332,18 @@ extern uint8_t *w_e_out;
                 (next_in != __CPROVER_loop_entry(next_in) ==>                                      \
                  (w_e_cnt <= 7 && w_e_len <= 48 && __CPROVER_same_object(w_e_out, bb->m_out_start) && \
                   EN_OFF(w_e_out) + 8 <= EN_OS && EN_OFF(bb->m_out_buf) == EN_OFF(w_e_out) + EN_K && \
-                  bb->m_bit_count == ((w_e_cnt + w_e_len) & 7) && bb->m_bits == (w_e_word >> (8 * EN_K)) \
+                  bb->m_bit_count == ((w_e_cnt + w_e_len) & 7) EN_BITS_INV                       \
                   EN_BYTES_INV)))                                                                  \
         __CPROVER_decreases(EN_OFF(end_in) - EN_OFF(next_in))
+#define E_encode_deflate_icf_base w_e_first = next_in;
 #define H_encode_deflate_icf_base_1                                                                \
         {                                                                                          \
                 struct huff_code l__ = EN_LL(next_in->lit_len), d__ = EN_DL(next_in->lit_dist);    \
+                /* previous token (needed when the loop is unwound instead of abstracted by its invariant) */ \
+                __CPROVER_assert(next_in == w_e_first ||                                           \
+                                         (EN_OFF(bb->m_out_buf) == EN_OFF(w_e_out) + EN_K &&       \
+                                          bb->m_bit_count == ((w_e_cnt + w_e_len) & 7) EN_BITS_INV), \
+                                 "previous token left exactly its window behind");                 \
                 w_e_bits = bb->m_bits;                                                             \
                 w_e_cnt = bb->m_bit_count;                                                         \
                 w_e_out = bb->m_out_buf;                                                           \
